@@ -285,7 +285,7 @@ spec:
         requires old(self).at_start(), utf8len(old(self).rem()) <= u32::MAX,
         ensures final(self).at_start(), suffix(old(self).rem(), final(self).rem()),
             final(self).rem().len() <= old(self).rem().len(),
-            shape(token.kind, eaten(old(self).rem(), final(self).rem()), final(self).rem()),     // [C17] [C04]
+            shape(token.kind, eaten(old(self).rem(), final(self).rem()), final(self).rem()),     // [C17] [C04] [C05]
             token.len == utf8len(old(self).rem()) - utf8len(final(self).rem()),   // [C04] [C05]
             (token.kind == TokenKind::Eof) == (old(self).rem().len() == 0),
             old(self).rem().len() > 0 ==> token.len >= 1,                          // [C03] [C04]
@@ -313,7 +313,7 @@ before `let token = Token::new(token_kind, self.pos_within_token());`:
             }
             if token_kind == TokenKind::MetadataStart { assert(e =~= seq!['>', '>']); }
             if token_kind == TokenKind::Newline { assert(e =~= seq!['\n'] || e =~= seq!['\r', '\n']); }   // [C17] LF and CRLF are exactly one Newline token
-            assert(shape(token_kind, e, f));   // [C17] [C04]
+            assert(shape(token_kind, e, f));   // [C17] [C04] [C05]
         }
 @*/
 
@@ -332,27 +332,27 @@ closure @ `|c| c != '\n'` `char` ret `b: bool`:
 @*/
 
 /*@ fn src/lexer/mod.rs Cursor::block_comment
-tags C03
+tags C03 C17 C05
 ret r
 spec:
         requires old(self).inv(), old(self).mark() <= u32::MAX,
             old(self).prev_spec() == '[', old(self).rem().len() > 0, old(self).rem()[0] == '-',
         ensures final(self).inv(), final(self).mark() == old(self).mark(), suffix(old(self).rem(), final(self).rem()), r == TokenKind::BlockComment,
             final(self).rem().len() <= old(self).rem().len(),
-            bc_ok(eaten(old(self).rem(), final(self).rem()), 1, final(self).rem().len() == 0),    // [C17]
+            bc_ok(eaten(old(self).rem(), final(self).rem()), 1, final(self).rem().len() == 0),    // [C17] [C05]
 before `while let Some(c) = self.bump()`:
         broadcast use lemma_suffix_trans_b;
         let ghost o = old(self).rem();
         proof { assert(self.rem() == o.drop_first()); assert(o.skip(1) =~= o.drop_first()); }
 loop 0:
             invariant_except_break
-                forall|i: int| 1 <= i && i + 1 < o.len() - self.rem().len() ==> !(#[trigger] o[i] == '-' && o[i + 1] == ']'),     // [C17] no `-]` inside the comment so far
-                o.len() - self.rem().len() >= 2 && o[o.len() - self.rem().len() - 1] == '-' ==> (self.rem().len() == 0 || self.rem()[0] != ']'),    // [C17]
+                forall|i: int| 1 <= i && i + 1 < o.len() - self.rem().len() ==> !(#[trigger] o[i] == '-' && o[i + 1] == ']'),     // [C17] [C05] no `-]` inside the comment so far
+                o.len() - self.rem().len() >= 2 && o[o.len() - self.rem().len() - 1] == '-' ==> (self.rem().len() == 0 || self.rem()[0] != ']'),    // [C17] [C05]
             invariant self.inv(), self.mark() == old(self).mark(), suffix(old(self).rem(), self.rem()), o == old(self).rem(),
                 1 <= o.len() - self.rem().len(), self.rem() == o.skip(o.len() - self.rem().len()), o[0] == '-',
             ensures
                 self.rem().len() <= o.len(),
-                bc_ok(eaten(o, self.rem()), 1, self.rem().len() == 0),     // [C17] the comment ends at the first `-]` or at the end of input
+                bc_ok(eaten(o, self.rem()), 1, self.rem().len() == 0),     // [C17] [C05] the comment ends at the first `-]` or at the end of input (nothing after it is swallowed)
             decreases self.fuel()
 loopbody 0:
             broadcast use lemma_suffix_trans_b;
